@@ -623,6 +623,11 @@ class Node:
             if deep is None:
                 deep = True
             topnodes = child._root.children
+            # Check this before the first node is added
+            existing_ids = {n._data_id for n in self.children}
+            for n in topnodes:
+                if n._data_id in existing_ids:
+                    raise UniqueConstraintError("Node.data already exists in parent")
             if isinstance(before, (int, Node)) and before is not False:
                 topnodes = topnodes[::-1]
             for n in topnodes:
@@ -914,6 +919,11 @@ class Node:
         assert before is None
         if not self._children:
             raise ValueError("Need child nodes when `add_self=False`")
+        # Check this before the first node is added
+        existing_ids = {n._data_id for n in target.children}
+        for child in self.children:
+            if child._data_id in existing_ids:
+                raise UniqueConstraintError("Node.data already exists in parent")
         res = None
         for child in self.children:
             n = target.add_child(child, before=None, deep=deep)
